@@ -93,12 +93,21 @@ def rule_grounded_propagation(ctx):
             # an argument of the set: initial member
             n_init += 1
             verdict = None
-            for e, t in conds:
+            from ..prov import expand_params as _xp
+
+            conds_x = [(e2, t) for e, t in conds for e2 in (_xp(prog, e, 2) if y is not F else {e})]
+            for e, t in conds_x:
                 cnt = None
                 if e[0] == "op" and e[1] in ("Eq", "Ne", "Lt", "Le", "Gt", "Ge") and len(e[2]) == 2:
                     for a, b in ((e[2][0], e[2][1]), (e[2][1], e[2][0])):
                         if _is_call(a, r"Iterator::count$", 1) and _is_call(a[2][0], r"iter_attacks_to(_id)?$") and b[0] == "const":
                             same = x in subterms(a) or (_peel_id(a[2][0][2][-1]) == x)
+                            if not same and y is not F:
+                                # seen through a helper (`register(arg)`): both are the element of the iteration over the argument set
+                                # (the receivers differ only by the path the framework took into the helper)
+                                ca = a[2][0][2][-1]
+                                ca = _peel_id(ca) or ca
+                                same = isinstance(ca, tuple) and ca[0] == "elem" and _is_call(ca[1], r"ArgumentSet::iter$|LabelSet::iter$") and len([1 for yy in bodies for ss in yy.calls() if re.search(r"ArgumentSet::iter$", callee_decl(callee_of(ss)) or "")]) == 1
                             filt = [t2[1] for t2 in subterms(a[2][0]) if isinstance(t2, tuple) and t2[0] == "call" and re.search(r"Iterator::(filter|skip|take|step_by)", t2[1])]
                             cnt = (e[1], b[1], t, same, filt, a is e[2][0])
                 elif _is_call(e, r"Option::is_none$", 1) and _is_call(e[2][0], r"Iterator::next$") and any(_is_call(t2, r"iter_attacks_to(_id)?$") for t2 in subterms(e)):
@@ -177,6 +186,11 @@ def rule_grounded_propagation(ctx):
                         anchor = "%s|decrement#%d" % (F.id, n_dec)
                         r.check(step == ("const", 1), anchor, "step:%s" % show(step), "a defeated attacker lowers the counter by 1", "the counter is lowered by %s per defeated attacker" % show(step), s.loc())
                         idxs = prov(prog, y, s.node["args"][1])
+                        if y is not F:
+                            # a helper that is handed the argument whose counter it lowers (`release(att.attacked())`): what its callers pass
+                            from ..prov import expand_params as _xp2
+
+                            idxs = [i2 for i in idxs for i2 in _xp2(prog, i, 2)]
                         X2 = [_peel_id(i) for i in idxs]
                         shape = all(x2 is not None and _is_call(x2, r"::attacked$", 1) and x2[2][0][0] == "elem" and _is_call(x2[2][0][1], r"iter_attacks_from(_id)?$") for x2 in X2)
                         if X2 and all(x2 is not None for x2 in X2):
